@@ -756,7 +756,7 @@ def run_c25(tier):
         ep = year_start(2022) + (50 + on) * DAY + 9 * 3600
         ep -= ep % tfsec
         nv = rng.choice([3, 4, 6])
-        ops = [{"op": "repl_use", "x": {"who": "master"}}, {"op": "repl_real_sender", "x": {"slow_first_ms": rng.choice([30, 60])}}]
+        ops = [{"op": "repl_use", "x": {"who": "master"}}, {"op": "repl_real_sender", "x": {"slow_first_ms": rng.choice([0, 30]), "hold_first_until": nv}}]
         for k in range(nv):
             ops.append({"op": "write", "buckets": [{"key": c.keyF, "cols": [{"name": "Epoch", "type": "i8", "vals": [ep]},
                                                                             {"name": "V", "type": "i4", "vals": [500 + k]}]}]})
@@ -787,11 +787,14 @@ def run_c25(tier):
             continue
         m = rows_of(cm["master"][c.keyF], c.keyF)
         r = rows_of(cm["replica"][c.keyF], c.keyF)
+        if not isinstance(m, tuple) or len(m[1]) != 1 or m[1][0][-1] != 500 + nv - 1:
+            raise Undecided("real-sender scenario: the master does not hold the last version: %s" % str(m)[:200])
         res.cov["traces_validated_against_impl"] += 1
+        res.cov.setdefault("real_sender_order_examples", []).append({"master": str(m[1]), "replica": str(r)[:120]})
         if [e for e in sy.get("replay", []) if e]:
             res.violation("real sender: replaying the transmitted transaction groups failed on the replica: %s" % [e for e in sy["replay"] if e][:2], replay)
         elif m != r:
-            res.violation("%d successive versions of one record were committed on the master and transmitted through replication.Sender (first delivery slow): "
+            res.violation("%d successive versions of one record were committed on the master and transmitted through replication.Sender (the first delivery was held until the last version had been handed over): "
                           "after the replica applied every transmitted transaction, %s holds %s on the master and %s on the replica" % (nv, c.keyF, str(m)[:200], str(r)[:200]), replay)
     res.cov["real_sender_order_histories"] = len(ord_meta)
     for ln, c, ngr in lag_meta:
